@@ -284,3 +284,39 @@ class FlattenUpdate(NodeUpdate):
 
 
 ALL = [PartitionUniqueFirst, PartitionUniqueLast, UniqueList, UniqueListUnbounded, UniqueDict, FlattenUpdate]
+
+
+# --------------------------------------------------------------------------- timed_window_unique
+class TimedWindowUniqueFirst(PartitionUniqueFirst):
+    cls = 'timed_window_unique'
+    name = 'timed_window_unique.update[keep=first]'
+    props = ['C03', 'C04', 'C05', 'C08', 'C10', 'C16']
+    inline = ('timed_window_unique._get_key',)
+
+    def make_self(self, I):
+        f = PartitionUniqueFirst.make_self(self, I)
+        del f['n']
+        f['last'] = sym.VAw(z3.Const('last0', sym.Aw))
+        f['interval'] = sym.VReal(z3.Real('interval'))
+        return f
+
+    def clauses(self):
+        nk, nv, nm = self.new_keys(), self.new_vals(), self.new_mds()
+        return [
+            Clause('C08.keeps_first_or_last_per_key', ['C08'], text='keys(self._buffer) == %s and vals(self._buffer) == %s and emitted == []' % (nk, nv),
+                   note='the buffer is the keep-first / keep-last image of the arrivals since the last tick'),
+            Clause('C10.metadata_buffer_tracks_buffer', ['C10', 'C05'],
+                   text='keys(self._metadata_buffer) == keys(self._buffer) and vals(self._metadata_buffer) == %s' % nm),
+            Clause('C03.returns_awaitable_of_last_emission', ['C03'], text='result == old(self.last)'),
+        ] + self.standard_clauses() + user_raise_clauses(self)
+
+
+class TimedWindowUniqueLast(TimedWindowUniqueFirst):
+    name = 'timed_window_unique.update[keep=last]'
+    keep = 'last'
+    new_keys = PartitionUniqueLast.new_keys
+    new_vals = PartitionUniqueLast.new_vals
+    new_mds = PartitionUniqueLast.new_mds
+
+
+ALL += [TimedWindowUniqueFirst, TimedWindowUniqueLast]
